@@ -56,11 +56,15 @@ pub struct Ctx {
 }
 
 impl Ctx {
+    /// true in a sub-run (mondbg: debug assertions on; monfast: plain release without overflow
+    /// checks). Sub-runs execute the same generators on a reduced budget.
     pub fn is_dbg(&self) -> bool {
-        self.profile == "mondbg"
+        self.profile != "monrel"
     }
     pub fn sub_seed(&self, parts: &[u64]) -> u64 {
-        rngs::sub_seed(self.seed ^ rngs::str_seed(&self.id), parts)
+        // the plain-release sub-run gets its own workloads instead of repeating mondbg's
+        let salt = if self.profile == "monfast" { 0xFA57_0000_0000_0001 } else { 0 };
+        rngs::sub_seed(self.seed ^ salt ^ rngs::str_seed(&self.id), parts)
     }
 }
 
@@ -463,7 +467,7 @@ where
                         for v in rep.violations.iter_mut() {
                             if let Value::Object(m) = &mut v.witness {
                                 m.entry("item").or_insert(json!(i));
-                                m.entry("profile").or_insert(json!(crate::PROFILE));
+                                m.entry("profile").or_insert(json!(*crate::PROFILE));
                             }
                         }
                     }
